@@ -6,6 +6,9 @@ M = core.MANAGER
 
 
 def check(ctx):
+    from . import core8
+
+    core8.registration(ctx, "C04")
     core2.mgr_method_run(ctx, "C04")
     core2.mm_call_recording(ctx, "C04")
     core2.method_call_lowering(ctx, "C04")
